@@ -146,4 +146,82 @@ theorem scanLe_spec (hp : b.payload = frames es)
 
 end Scan
 
+/-! ### The offset table -/
+
+section Table
+
+variable {iv : Nat} {es : List Entry} {b : Block}
+
+theorem BlockOf.offs_length (hb : BlockOf iv es b) :
+    b.offsets.length = (es.length - 1) / iv + 1 := by
+  rw [hb.offsets, offsetTable_length]
+
+theorem BlockOf.offs_get? (hb : BlockOf iv es b) {m : Nat} (h : m < b.offsets.length) :
+    b.offsets[m]? = some (offAt es (m * iv)) := by
+  have h' : m < (es.length - 1) / iv + 1 := by rw [← hb.offs_length]; exact h
+  rw [hb.offsets, offsetTable]
+  simp [h']
+
+theorem BlockOf.offs_get (hb : BlockOf iv es b) {m : Nat} (h : m < b.offsets.length) :
+    b.offsets[m] = offAt es (m * iv) := by
+  have := hb.offs_get? h
+  rw [List.getElem?_eq_getElem h] at this
+  exact Option.some.inj this
+
+theorem BlockOf.offs_idx (hb : BlockOf iv es b) {m : Nat} (h : m < b.offsets.length) :
+    m * iv ≤ es.length - 1 := by
+  rw [hb.offs_length] at h
+  have h1 : m ≤ (es.length - 1) / iv := by omega
+  have h2 := Nat.mul_le_mul_right iv h1
+  have h3 := Nat.div_mul_le_self (es.length - 1) iv
+  omega
+
+theorem BlockOf.offs_pos (hb : BlockOf iv es b) : 0 < b.offsets.length := by
+  rw [hb.offs_length]; exact Nat.succ_pos _
+
+theorem BlockOf.offs_head? (hb : BlockOf iv es b) : b.offsets.head? = some 0 := by
+  rw [List.head?_eq_getElem?, hb.offs_get? hb.offs_pos]; simp
+
+theorem BlockOf.offs_getLast? (hb : BlockOf iv es b) :
+    ∃ s, b.offsets.getLast? = some (offAt es s) ∧ s ≤ es.length - 1 := by
+  refine ⟨(b.offsets.length - 1) * iv, ?_, hb.offs_idx (by have := hb.offs_pos; omega)⟩
+  rw [List.getLast?_eq_getElem?, hb.offs_get? (by have := hb.offs_pos; omega)]
+
+theorem BlockOf.payload_length (hb : BlockOf iv es b) : b.payload.length = offAt es es.length := by
+  rw [hb.payload, offAt_length]
+
+theorem BlockOf.fuel (hb : BlockOf iv es b) : es.length < b.payload.length + 1 := by
+  have := le_offAt es (Nat.le_refl es.length)
+  rw [hb.payload_length]; omega
+
+end Table
+
+/-! ### Bounds -/
+
+theorem lowerBound_eq {es : List Entry} {q : Bytes} {t : Nat} (ht : t ≤ es.length)
+    (h1 : ∀ m (_ : m < t) (h' : m < es.length), es[m].1 < q)
+    (h2 : ∀ h : t < es.length, ¬ es[t].1 < q) : Spec.lowerBound es q = t := by
+  apply takeWhile_length_eq _ _ _ ht
+  · intro m hm hm'; simpa using h1 m hm hm'
+  · intro h; simpa using h2 h
+
+theorem upperBound_eq {es : List Entry} {q : Bytes} {t : Nat} (ht : t ≤ es.length)
+    (h1 : ∀ m (_ : m < t) (h' : m < es.length), es[m].1 ≤ q)
+    (h2 : ∀ h : t < es.length, q < es[t].1) : Spec.upperBound es q = t := by
+  apply takeWhile_length_eq _ _ _ ht
+  · intro m hm hm'; simpa using h1 m hm hm'
+  · intro h; simpa using h2 h
+
+theorem upperBound_spec (es : List Entry) (q : Bytes) :
+    Spec.upperBound es q ≤ es.length ∧
+    (∀ m (_ : m < Spec.upperBound es q) (h' : m < es.length), es[m].1 ≤ q) ∧
+    (∀ h : Spec.upperBound es q < es.length, q < es[Spec.upperBound es q].1) := by
+  obtain ⟨s0, s1, s2⟩ := takeWhile_spec (fun e : Entry => decide (e.1 ≤ q)) es
+  refine ⟨s0, ?_, ?_⟩
+  · intro m hm hm'; simpa using s1 m hm hm'
+  · intro h
+    have := s2 h
+    simp only [decide_eq_false_iff_not, List.not_le] at this
+    exact this
+
 end Grenad
